@@ -227,7 +227,20 @@ def make_ks(model, mol, uks, gcfg, mdesc):
             nrad=80,
             **kw,
         )
-    ks = make_cider_calc(ks, model, xmix=mdesc.get("xmix", 0.5), xkernel="GGA_X_PBE", ckernel="GGA_C_PBE", nldf_init=nldf_init, rhocut=mdesc.get("rhocut"))
+    sdmx_init = None
+    if st.has_sdmx and mdesc.get("sdmx_kw"):
+        # an explicit initializer for the SDMX generator (low-memory mode, own exponent ladder)
+        from ciderpress.pyscf.sdmx import PySCFSDMXInitializer
+
+        sdmx_init = PySCFSDMXInitializer(st.sdmx_settings, **mdesc["sdmx_kw"])
+    form = mdesc.get("xc_form", "pbe_pair")
+    if form == "none":
+        # the documented default: CIDER in place of exact exchange, nothing else
+        ks = make_cider_calc(ks, model, xmix=1.0, nldf_init=nldf_init, sdmx_init=sdmx_init, rhocut=mdesc.get("rhocut"))
+    elif form == "xc":
+        ks = make_cider_calc(ks, model, xmix=mdesc.get("xmix", 0.5), xc="0.25*GGA_X_PBE + GGA_C_PBE", nldf_init=nldf_init, sdmx_init=sdmx_init, rhocut=mdesc.get("rhocut"))
+    else:
+        ks = make_cider_calc(ks, model, xmix=mdesc.get("xmix", 0.5), xkernel="GGA_X_PBE", ckernel="GGA_C_PBE", nldf_init=nldf_init, sdmx_init=sdmx_init, rhocut=mdesc.get("rhocut"))
     ks.grids.verbose = 0
     ks._verif_kw = (kw, {k: float(v) for k, v in kw.items()}) if kw else None  # (lmax is an int: float() is exact)
     return ks
@@ -266,7 +279,9 @@ def gen_ni_history(seed):
     models = []
     for _ in range(nm):
         s, ev, mode, ver = rng.choice(NI_MODELS)
-        models.append({"settings": s, "ev": ev, "mode": mode, "version": ver, "seed": rng.below(10**6), "plan_type": rng.choice(["gaussian", "spline"]), "interp": rng.choice(["onsite_direct", "onsite_spline"]), "xmix": rng.choice([1.0, 0.5, 0.25]), "zero_d": bool(rng.chance(0.3)), "alpha_max": rng.choice([300.0, 1000.0, 3000.0, 3000.0]), "lmax": rng.choice([None, None, None, 6, 8]), "rhocut": rng.choice([None, None, None, 1e-6, 1e-4, 1e-3])})
+        models.append({"settings": s, "ev": ev, "mode": mode, "version": ver, "seed": rng.below(10**6), "plan_type": rng.choice(["gaussian", "spline"]), "interp": rng.choice(["onsite_direct", "onsite_spline"]), "xmix": rng.choice([1.0, 0.5, 0.25]), "zero_d": bool(rng.chance(0.3)), "alpha_max": rng.choice([300.0, 1000.0, 3000.0, 3000.0]), "lmax": rng.choice([None, None, None, 6, 8]), "rhocut": rng.choice([None, None, None, 1e-6, 1e-4, 1e-3]),
+                       "xc_form": rng.choice(["pbe_pair", "pbe_pair", "pbe_pair", "none", "xc"]),
+                       "sdmx_kw": rng.choice([None, None, None, {"lowmem": True}, {"alpha0": 0.02, "lambd": 2.0, "nalpha": 8}, {"lowmem": True, "lambd": 1.6}])})
         if rng.chance(0.4):
             # the second calculator of this model (two KS objects in one script, on the same
             # grids) is configured with other optional settings than the first
